@@ -336,8 +336,8 @@ func decodeByteArray(s *Stream, val reflect.Value) error {
 		if vlen > 1 {
 			return &decodeError{msg: "input string too short", typ: val.Type()}
 		}
-		bv, _ := s.Uint()
-		val.Index(0).SetUint(bv)
+		val.Index(0).SetUint(uint64(s.byteval))
+		s.kind = -1 // rearm Kind
 	case String:
 		if uint64(vlen) < size {
 			return &decodeError{msg: "input string too long", typ: val.Type()}
